@@ -20,12 +20,23 @@ type c19SegPt struct {
 	S     exact.Seg `json:"seg"`
 	P     exact.P   `json:"p"`
 	Scale int       `json:"scale"`
+	// NegZero: zero ordinates written as -0 (bit 0..5: seg A.X, A.Y, B.X, B.Y, P.X, P.Y) - the same point
+	NegZero uint8 `json:"neg_zero,omitempty"`
+}
+
+func negZeroIf(v float64, on bool) float64 {
+	if on && v == 0 {
+		return math.Copysign(0, -1)
+	}
+	return v
 }
 
 type c19SegSeg struct {
 	S     exact.Seg `json:"s"`
 	T     exact.Seg `json:"t"`
 	Scale int       `json:"scale"`
+	// NegZero: zero ordinates written as -0 (bit 0..7: S.A.X, S.A.Y, S.B.X, S.B.Y, T.A.X ...)
+	NegZero uint8 `json:"neg_zero,omitempty"`
 }
 
 func boxesMeet(a, b exact.Seg) bool {
@@ -39,6 +50,9 @@ func boxesMeet(a, b exact.Seg) bool {
 func c19CheckSegPt(c c19SegPt) fw.Outcome {
 	seg := adapt.Seg(c.S, c.Scale)
 	p := adapt.Pt(c.P, c.Scale)
+	seg.A.X, seg.A.Y = negZeroIf(seg.A.X, c.NegZero&1 != 0), negZeroIf(seg.A.Y, c.NegZero&2 != 0)
+	seg.B.X, seg.B.Y = negZeroIf(seg.B.X, c.NegZero&4 != 0), negZeroIf(seg.B.Y, c.NegZero&8 != 0)
+	p.X, p.Y = negZeroIf(p.X, c.NegZero&16 != 0), negZeroIf(p.Y, c.NegZero&32 != 0)
 	a, b := c.S.A, c.S.B
 	wantOn := exact.OnSeg(c.S, exact.Lat(c.P))
 	wantIn := false
@@ -98,6 +112,10 @@ func c19CheckSegSeg(c c19SegSeg) fw.Outcome {
 
 func c19CheckSegSegRaw(c c19SegSeg) fw.Outcome {
 	s, t := adapt.Seg(c.S, c.Scale), adapt.Seg(c.T, c.Scale)
+	s.A.X, s.A.Y = negZeroIf(s.A.X, c.NegZero&1 != 0), negZeroIf(s.A.Y, c.NegZero&2 != 0)
+	s.B.X, s.B.Y = negZeroIf(s.B.X, c.NegZero&4 != 0), negZeroIf(s.B.Y, c.NegZero&8 != 0)
+	t.A.X, t.A.Y = negZeroIf(t.A.X, c.NegZero&16 != 0), negZeroIf(t.A.Y, c.NegZero&32 != 0)
+	t.B.X, t.B.Y = negZeroIf(t.B.X, c.NegZero&64 != 0), negZeroIf(t.B.Y, c.NegZero&128 != 0)
 	want := exact.SegsMeet(c.S, c.T)
 	label := "general"
 	col := exact.Orient(c.S.A, c.S.B, c.T.A) == 0 && exact.Orient(c.S.A, c.S.B, c.T.B) == 0 &&
@@ -274,7 +292,11 @@ func c19GenSegPt(t *rapid.T) c19SegPt {
 	if f := genFarAway(t, sc); f != nil {
 		s, p = exact.Seg{A: f(s.A), B: f(s.B)}, f(p)
 	}
-	return c19SegPt{S: s, P: p, Scale: sc}
+	c := c19SegPt{S: s, P: p, Scale: sc}
+	if rapid.IntRange(0, 3).Draw(t, "negzero") == 0 {
+		c.NegZero = uint8(rapid.IntRange(1, 63).Draw(t, "negzeromask"))
+	}
+	return c
 }
 
 func c19GenSegSeg(t *rapid.T) c19SegSeg {
@@ -301,7 +323,11 @@ func c19GenSegSeg(t *rapid.T) c19SegSeg {
 	if f := genFarAway(t, sc); f != nil {
 		s, u = exact.Seg{A: f(s.A), B: f(s.B)}, exact.Seg{A: f(u.A), B: f(u.B)}
 	}
-	return c19SegSeg{S: s, T: u, Scale: sc}
+	c := c19SegSeg{S: s, T: u, Scale: sc}
+	if rapid.IntRange(0, 3).Draw(t, "negzero") == 0 {
+		c.NegZero = uint8(rapid.IntRange(1, 255).Draw(t, "negzeromask"))
+	}
+	return c
 }
 
 func latticePoints(n int64) []exact.P {
@@ -340,6 +366,9 @@ func c19Subs() []fw.Sub {
 						for _, b := range pts {
 							for _, p := range pts {
 								if !yield(c19SegPt{S: exact.Seg{A: a, B: b}, P: p, Scale: sc}) {
+									return
+								}
+								if sc == 0 && (p.X == 0 || p.Y == 0) && !yield(c19SegPt{S: exact.Seg{A: a, B: b}, P: p, Scale: sc, NegZero: 48}) {
 									return
 								}
 							}
@@ -435,6 +464,9 @@ type c19Dbl struct {
 	Multiples bool `json:"multiples,omitempty"`
 	// Axis: S is vertical or horizontal, T is perpendicular to it and starts on it (all decided by comparisons)
 	Axis bool `json:"axis,omitempty"`
+	// Ints: integer ordinates of very different magnitudes (1 next to 2^53); asserted against rational arithmetic
+	// whenever every difference and every product of two differences is itself a double
+	Ints bool `json:"ints,omitempty"`
 }
 
 var c19DblPool = []float64{0, math.Copysign(0, -1), 1, -1, 0.1, 0.2, 0.3, 0.7, 0.8, 1.1, 2.3, 2.4, 3, 3.3, 7.7, 8.7, 9.9, 1e-5, 123.456, -179.9999999,
@@ -538,8 +570,156 @@ func c19GenDbl(t *rapid.T) c19Dbl {
 			c.T = [4]F{c.T[2], c.T[3], c.T[0], c.T[1]}
 		}
 		c.Axis = true
+	} else if rapid.IntRange(0, 4).Draw(t, "ints") == 0 {
+		// magnitudes that no single scale holds: a segment 2^53 long next to one of length 2
+		iv := func(label string) F {
+			v := float64(rapid.SampledFrom(c19IntPool).Draw(t, label))
+			switch rapid.IntRange(0, 5).Draw(t, label+"m") {
+			case 0:
+				v = -v
+			case 1:
+				v = float64(rapid.IntRange(-4, 4).Draw(t, label+"s"))
+			}
+			return F(v)
+		}
+		for i := range c.S {
+			c.S[i], c.T[i] = iv(fmt.Sprintf("is%d", i)), iv(fmt.Sprintf("it%d", i))
+		}
+		if rapid.Bool().Draw(t, "iaxis") { // a long axis-parallel segment, the other one short and near its start or its end
+			c.S[3] = c.S[1]
+		}
+		if rapid.Bool().Draw(t, "inear") {
+			// a very long horizontal segment and a short one that crosses its line within a unit or two of one of its
+			// ends - just before it, just behind it, or on it: t (or u) is within 2^-50 of 0 or 1
+			x0, y0 := float64(rapid.IntRange(-3, 3).Draw(t, "inx0")), float64(rapid.IntRange(-3, 3).Draw(t, "iny0"))
+			l := float64(rapid.SampledFrom([]int64{1 << 40, 1 << 50, 1 << 52, 1 << 53}).Draw(t, "inl"))
+			if x0 != 0 && l == 1<<53 {
+				l = 1 << 52
+			}
+			c.S = [4]F{F(x0), F(y0), F(x0 + l), F(y0)}
+			ex := x0 // the end the short segment passes by
+			if rapid.Bool().Draw(t, "infar") {
+				ex = x0 + l
+			}
+			d := func(label string) float64 { return float64(rapid.IntRange(0, 4).Draw(t, label)) }
+			c.T = [4]F{F(ex - d("ina")), F(y0 + d("inb")), F(ex + d("inc")), F(y0 - d("ind"))}
+			if rapid.Bool().Draw(t, "inrev") {
+				c.S = [4]F{c.S[2], c.S[3], c.S[0], c.S[1]}
+			}
+			if rapid.Bool().Draw(t, "inswapxy") {
+				c.S = [4]F{c.S[1], c.S[0], c.S[3], c.S[2]}
+				c.T = [4]F{c.T[1], c.T[0], c.T[3], c.T[2]}
+			}
+		}
+		c.Ints = true
 	}
 	return c
+}
+
+var c19IntPool = []int64{0, 1, 2, 3, 4, 5, 7, 8, 1 << 10, 1 << 26, 1<<26 + 1, 1 << 27, 1 << 30, 1 << 40, 1 << 52, 1 << 53, 1<<53 - 1, 1<<53 - 2, 1<<52 + 1}
+
+// c19IntsExact: are all eight ordinates integers, and are the differences the kernels form - and every product of an x
+// difference with a y difference among them, and every difference of two such products - exactly doubles?  Then every
+// intermediate value is exact, the quotients t and u are correctly rounded quotients of exact values (a quotient of two
+// doubles p > q > 0 is at least 1 + 2^-52 after rounding, one of p < 0 < q stays negative), and the answer is owed
+// exactly.  all = false looks only at the differences of the general (non-collinear) path of s.IntersectsSegment(u):
+// u.A - s.A, s.B - s.A, u.B - u.A; all = true at every pair of points (the collinear path goes through Raycast).
+func c19IntsExact(s, u geometry.Segment, all bool) bool {
+	pts := []geometry.Point{s.A, s.B, u.A, u.B}
+	pairs := [][2]int{{2, 0}, {1, 0}, {3, 2}}
+	if all {
+		pairs = nil
+		for i := range pts {
+			for j := range pts {
+				pairs = append(pairs, [2]int{i, j})
+			}
+		}
+	}
+	isDouble := func(v *big.Int) bool {
+		f, acc := new(big.Float).SetInt(v).Float64()
+		return acc == big.Exact && !math.IsInf(f, 0)
+	}
+	toInt := func(v float64) (*big.Int, bool) {
+		if v != math.Trunc(v) || math.Abs(v) > 1<<53 {
+			return nil, false
+		}
+		b, _ := new(big.Float).SetFloat64(v).Int(nil)
+		return b, true
+	}
+	var dx, dy []*big.Int
+	for _, pr := range pairs {
+		for axis := 0; axis < 2; axis++ {
+			va, vb := pts[pr[0]].X, pts[pr[1]].X
+			if axis == 1 {
+				va, vb = pts[pr[0]].Y, pts[pr[1]].Y
+			}
+			a, ok1 := toInt(va)
+			b, ok2 := toInt(vb)
+			if !ok1 || !ok2 {
+				return false
+			}
+			d := new(big.Int).Sub(a, b)
+			if !isDouble(d) {
+				return false
+			}
+			if axis == 0 {
+				dx = append(dx, d)
+			} else {
+				dy = append(dy, d)
+			}
+		}
+	}
+	var prods []*big.Int
+	for _, a := range dx {
+		for _, b := range dy {
+			pr := new(big.Int).Mul(a, b)
+			if !isDouble(pr) {
+				return false
+			}
+			prods = append(prods, pr)
+		}
+	}
+	if !all {
+		// dx, dy hold (cmp, r, s); the kernel subtracts cmpx*ry - cmpy*rx, cmpx*sy - cmpy*sx, rx*sy - ry*sx
+		det := func(i, j int) *big.Int {
+			return new(big.Int).Sub(new(big.Int).Mul(dx[i], dy[j]), new(big.Int).Mul(dy[i], dx[j]))
+		}
+		return isDouble(det(0, 1)) && isDouble(det(0, 2)) && isDouble(det(1, 2))
+	}
+	for _, a := range prods {
+		for _, b := range prods {
+			if !isDouble(new(big.Int).Sub(a, b)) {
+				return false
+			}
+		}
+	}
+	return true
+}
+
+// c19IntsOrient: the side of c relative to the line a -> b, in arbitrary precision (integer ordinates).
+func c19IntsOrient(a, b, c geometry.Point) int {
+	bi := func(v float64) *big.Int { b, _ := new(big.Float).SetFloat64(v).Int(nil); return b }
+	l := new(big.Int).Mul(new(big.Int).Sub(bi(b.X), bi(a.X)), new(big.Int).Sub(bi(c.Y), bi(a.Y)))
+	r := new(big.Int).Mul(new(big.Int).Sub(bi(b.Y), bi(a.Y)), new(big.Int).Sub(bi(c.X), bi(a.X)))
+	return l.Cmp(r)
+}
+
+// c19IntsMeet: do the two closed segments share a point (integer ordinates, arbitrary precision)?
+func c19IntsMeet(s, u geometry.Segment) bool {
+	bi := func(v float64) *big.Int { b, _ := new(big.Float).SetFloat64(v).Int(nil); return b }
+	orient := func(a, b, c geometry.Point) int {
+		l := new(big.Int).Mul(new(big.Int).Sub(bi(b.X), bi(a.X)), new(big.Int).Sub(bi(c.Y), bi(a.Y)))
+		r := new(big.Int).Mul(new(big.Int).Sub(bi(b.Y), bi(a.Y)), new(big.Int).Sub(bi(c.X), bi(a.X)))
+		return l.Cmp(r)
+	}
+	inBox := func(a, b, p geometry.Point) bool {
+		return math.Min(a.X, b.X) <= p.X && p.X <= math.Max(a.X, b.X) && math.Min(a.Y, b.Y) <= p.Y && p.Y <= math.Max(a.Y, b.Y)
+	}
+	o1, o2, o3, o4 := orient(s.A, s.B, u.A), orient(s.A, s.B, u.B), orient(u.A, u.B, s.A), orient(u.A, u.B, s.B)
+	if o1*o2 < 0 && o3*o4 < 0 {
+		return true
+	}
+	return o1 == 0 && inBox(s.A, s.B, u.A) || o2 == 0 && inBox(s.A, s.B, u.B) || o3 == 0 && inBox(u.A, u.B, s.A) || o4 == 0 && inBox(u.A, u.B, s.B)
 }
 
 // c19CheckDbl: the identities below; a failure of the collinear-multiples identity (it rests on cross products) is the listed finding KF-RANGE
@@ -667,6 +847,40 @@ func c19CheckDblRaw(c c19Dbl) fw.Outcome {
 			return fw.Failf(label, "%v is an integer multiple along Segment%v but Raycast.On / ContainsPoint is false", u.A, s)
 		}
 	}
+	if c.Ints {
+		strict := c19IntsExact(s, u, true)
+		asserted := false
+		want := false
+		if strict || c19IntsExact(s, u, false) || c19IntsExact(u, s, false) {
+			want = c19IntsMeet(s, u)
+		}
+		// one operand order at a time: the general path is exact when its three differences are, provided the
+		// collinear branch (which goes through Raycast and other differences) is not the one taken
+		if strict || (c19IntsExact(s, u, false) && c19IntsOrient(s.A, s.B, u.A) != 0) {
+			asserted = true
+			if got := s.IntersectsSegment(u); got != want {
+				return fw.Failf("doubles/ints-exact", "Segment%v.IntersectsSegment(Segment%v) = %v; in rational arithmetic the answer is %v, and every difference and product involved is exactly a double", s, u, got, want)
+			}
+		}
+		if strict || (c19IntsExact(u, s, false) && c19IntsOrient(u.A, u.B, s.A) != 0) {
+			asserted = true
+			if got := u.IntersectsSegment(s); got != want {
+				return fw.Failf("doubles/ints-exact", "Segment%v.IntersectsSegment(Segment%v) = %v; in rational arithmetic the answer is %v, and every difference and product involved is exactly a double", u, s, got, want)
+			}
+		}
+		if strict {
+			for _, e := range []geometry.Point{u.A, u.B} {
+				on := c19IntsMeet(s, geometry.Segment{A: e, B: e})
+				if r := s.Raycast(e); r.On != on || s.ContainsPoint(e) != on {
+					return fw.Failf("doubles/ints-exact", "Segment%v.Raycast(%v).On = %v, ContainsPoint = %v; in rational arithmetic the point is on the segment: %v", s, e, r.On, s.ContainsPoint(e), on)
+				}
+			}
+		}
+		if !asserted {
+			return fw.OK("doubles/ints-not-exact", false)
+		}
+		label = "doubles/ints-exact"
+	}
 	if c.Axis {
 		vert, horiz := s.A.X == s.B.X, s.A.Y == s.B.Y
 		on := func(q geometry.Point) bool { return s.Rect().ContainsPoint(q) }
@@ -708,5 +922,5 @@ func c19CheckDblRaw(c c19Dbl) fw.Outcome {
 	if r := s.Raycast(p); !r.In && !r.On && p.Y >= lo && p.Y < hi && p.X < math.Min(s.A.X, s.B.X) {
 		return fw.Failf(label, "Segment%v.Raycast(%v).In = false although the point is level with the half-open height range and left of the whole segment", s, p)
 	}
-	return fw.OK(label, shared || c.Multiples || c.Axis || !sr.ContainsPoint(p))
+	return fw.OK(label, shared || c.Multiples || c.Axis || c.Ints || !sr.ContainsPoint(p))
 }
